@@ -1,10 +1,10 @@
 #!/bin/bash
 # regression of every kept seed in the sandbox pair (/tmp/v-s checks, /tmp/r-s repo)
 export VERIF_REPO=/tmp/r-s GOCACHE=/verif/.cache/go-build GOFLAGS=-mod=mod GOPROXY=off GOSUMDB=off GOTOOLCHAIN=local
-for d in /verif/seeded/C*-*/; do
+for d in ${SEEDS:-/verif/seeded/C*-*/}; do
   n=$(basename $d); id=${n%-*}
   [ -f $d/patch.diff ] || continue
-  cd /tmp/r-s; git checkout -q -- .
+  cd /tmp/r-s; git reset -q --hard HEAD; git clean -fdq
   if ! git apply $d/patch.diff 2>/dev/null && ! git apply --3way $d/patch.diff 2>/dev/null; then echo "$n apply=FAIL"; git checkout -q -- . ; git reset -q --hard HEAD; continue; fi
   go build ./... 2>/dev/null || { echo "$n build=FAIL"; git checkout -q -- .; continue; }
   cd /tmp/v-s; out=$(./check $id quick 2>&1); rc=$?
